@@ -121,6 +121,10 @@ def run(prop, tier):
                            "materialised_raw": e["raw"], "handed_to_codegen": e["clean"], "helpers": e["tail"], "roundtrip_same": e["roundtrip"], "code": e["code"]}
                 violations.append((vlib.write_replay(prop, f"{tier}-{len(violations)}", payload),
                                    f"{j['kind']}: {e['op']}(A = {vlib.ts(frag[e['ia'] - 1])}, B = {vlib.ts(frag[e['ib'] - 1])})"))
+    # ---- source stage: the same operations written in TypeScript, through the whole real frontend (semtype_to_runtype with its
+    # recursion probe, insert_definition, the printer) and run as validators
+    sv, scov, sstates, sconsumed = source_stage(tier, tag, frag, env, pairs, typesf, openf)
+    violations += sv
     # negative control: hand a different type to code generation
     base = next(e for e in traces[0][1:] if e["ok"] and e["raw"].get("t") != "prim")
     bad = copy.deepcopy(base)
@@ -129,14 +133,111 @@ def run(prop, tier):
     tn = validate([traces[0][0], bad], "mneg.ndjson")
     if not any(j["kind"] == "materialised-type-differs-from-computed-type" for j in vlib.tagged_lines(tn["lines"], "JUDGED")):
         raise ToolError("binding self-test failed: a replaced materialisation was accepted by Trace_Mat")
-    cov = {"states": gr["distinct"] + tstates, "transitions": gr["states"] + consumed, "traces_validated_against_impl": nmat,
+    cov = {"states": gr["distinct"] + tstates + sstates, "transitions": gr["states"] + consumed + sconsumed, "traces_validated_against_impl": nmat + sconsumed,
            "samples": [{"operation": "diff", "A": "(null | number)", "B": "null", "handed_to_codegen": "number"}],
            "fragment_types": n, "operand_pairs": len(pairs), "materialisations_judged": nmat, "declined_by_engine": declined[0], "operations": OPS,
-           "known_findings_hit": sorted({k for k, _ in known_hits}),
+           "known_findings_hit": sorted({k for k, _ in known_hits}), "source_stage": scov,
            "binding_selftest": "rejected: materialised-type-differs-from-computed-type", "exhaustive": False,
            "rule": "seeded sample of ordered pairs of the SemGen fragment x {diff, intersect, keyof, indexed access}; membership compared over exact "
                    "witnesses of both operands plus fixed extras"}
     vlib.write_evidence(prop, tier, cov, time.time() - t0, len(violations),
                         ["the computed type's meaning is SemDump!DMem (open reading, as a validator is structural) on the engine's dump",
-                         "source-level Exclude / keyof / indexed access through the whole compiler are exercised by C01's utility family"])
+                         "source stage: Exclude<A, B> / NonNullable / keyof A / A[B] compiled by the real frontend; the emitted validators must load, "
+                         "never throw, and Exclude must be the set difference of the validators of A and B (default mode, JSON-like probes)"])
     vlib.finish(prop, violations, known_hits)
+
+
+def source_stage(tier, tag, frag, env, pairs, typesf, openf):
+    import p_hash
+    rng = random.Random(vlib.seed() + 7)
+    n = len(frag)
+    sample = rng.sample(pairs, min(len(pairs), 400 if tier == "quick" else 3000))
+    decls = "\n".join(f"type {d['n']} = {vlib.ts(d['ty'])};" for d in env)
+    progs = []
+    for (a, b) in sample:
+        A, B = vlib.ts(frag[a - 1]), vlib.ts(frag[b - 1])
+        for op, expr in (("exclude", "Exclude<A, B>"), ("keyof", "keyof A"), ("index", "A[B]")):
+            progs.append({"op": op, "ia": a, "ib": b, "src": f"{decls}\ntype A = {A};\ntype B = {B};\ntype T = {expr};\nparse.buildParsers<{{ T: T, A: A, B: B }}>();\n"})
+    for a in range(1, n + 1):
+        A = vlib.ts(frag[a - 1])
+        progs.append({"op": "nonnull", "ia": a, "ib": a, "src": f"{decls}\ntype A = {A} | null;\ntype B = null;\ntype T = Exclude<A, null>;\nparse.buildParsers<{{ T: T, A: A, B: B }}>();\n"})
+        progs.append({"op": "nonnull", "ia": a, "ib": a, "src": f"{decls}\ntype A = {A} | null;\ntype B = null;\ntype T = {{ w: NonNullable<A> }}[\"w\"];\nparse.buildParsers<{{ T: T, A: A, B: B }}>();\n"})
+    comp = vlib.compile_all([vlib.compile_req(i, [("entry.ts", p["src"])]) for i, p in enumerate(progs)])
+
+    def jsonlike(v):
+        k = v.get("k")
+        if k in ("undef", "fn", "big", "date", "map", "set", "ta"):
+            return False
+        if k == "num" and v.get("n") in ("NaN",):
+            return False
+        if k == "arr":
+            return all(jsonlike(x) for x in v["es"])
+        if k == "obj":
+            return v.get("c", "plain") == "plain" and all(jsonlike(x["v"]) for x in v["ps"])
+        return True
+    probes = [v for v in p_hash.pool() if jsonlike(v)]
+    jobs = []
+    for i, r in enumerate(comp):
+        if r["outcome"] == "code":
+            for ri, root in enumerate(("T", "A", "B")):
+                jobs.append({"id": 3 * i + ri, "code": r["code"], "root": root, "probes": probes, "ops": ["validate"]})
+    obs = vlib.run_driver(jobs, tag + "-src")
+    lines = []
+    for i, (p, r) in enumerate(zip(progs, comp)):
+        rec = {"ev": "src", "op": p["op"], "ia": p["ia"], "ib": p["ib"], "outcome": r["outcome"], "load": "none", "vt": "", "va": "", "vb": "", "_src": p["src"],
+               "_diag": json.dumps(r.get("diags", r.get("msg", "")))[:300]}
+        if r["outcome"] == "code":
+            o = [obs.get(3 * i + k) for k in range(3)]
+            if any(x is None for x in o):
+                rec["load"] = "no-observation"
+            elif any(x["load"] != "ok" for x in o):
+                rec["load"] = "failed:" + next(x.get("loadmsg", "") for x in o if x["load"] != "ok")[:120]
+            else:
+                rec["load"] = "ok"
+                vec = lambda x: "".join((q["val"] if q["val"] in ("T", "F") else "E") for q in x["probes"])
+                rec["vt"], rec["va"], rec["vb"] = vec(o[0]), vec(o[1]), vec(o[2])
+        lines.append(rec)
+    d = os.path.join(vlib.WORK, tag)
+    nsh = 4
+    cfgt = os.path.join(vlib.VERIF, "spec/trace/Trace_Simple.cfg")
+    violations, consumed, states = [], 0, 0
+    seen = set()
+    oc = {}
+    for r in lines:
+        oc[r["outcome"]] = oc.get(r["outcome"], 0) + 1
+    for k in range(nsh):
+        mine = lines[k::nsh]
+        pth = os.path.join(d, f"srctrace{k}.ndjson")
+        with open(pth, "w") as f:
+            f.write(json.dumps({"ev": "atoms", "atoms": {}}) + "\n")
+            for e in mine:
+                f.write(json.dumps({kk: v for kk, v in e.items() if not kk.startswith("_")}) + "\n")
+        tr = vlib.validate_trace(pth, os.path.join(vlib.VERIF, "spec/trace/Trace_Mat.tla"), cfgt, heap="3g", tag=f"{tag}-src{k}",
+                                 env_extra={"TYPES": typesf, "OPEN": openf}, timeout=3400)
+        cons = vlib.tagged_lines(tr["lines"], "CONSUMED")
+        if not cons or cons[0]["n"] != len(mine) + 1:
+            raise ToolError(f"source-stage trace {k} not consumed: {cons}\n{tr['tail']}")
+        consumed += len(mine)
+        states += tr["distinct"]
+        for j in vlib.tagged_lines(tr["lines"], "JUDGED"):
+            e = mine[j["line"] - 2]
+            key = (j["kind"], e["op"], e["ia"], e["ib"])
+            if key in seen or len(violations) >= 20:
+                continue
+            seen.add(key)
+            payload = {"property": "C07", "stage": "source", "complaint": j["kind"], "program": e["_src"], "outcome": e["outcome"], "load": e["load"],
+                       "diagnostics": e["_diag"], "probes": probes, "validator_T": e["vt"], "validator_A": e["va"], "validator_B": e["vb"]}
+            violations.append((vlib.write_replay("C07", f"{tier}-src{len(violations)}", payload),
+                               f"source: {j['kind']}: {e['_src'].strip().splitlines()[-4:-1]}"))
+    # binding self-test: a thrown verdict must be rejected
+    good = next((e for e in lines if e["load"] == "ok"), None)
+    if good is not None:
+        bad = dict(good, vt="E" + good["vt"][1:])
+        pth = os.path.join(d, "srcneg.ndjson")
+        with open(pth, "w") as f:
+            f.write(json.dumps({"ev": "atoms", "atoms": {}}) + "\n" + json.dumps({kk: v for kk, v in bad.items() if not kk.startswith("_")}) + "\n")
+        tn = vlib.validate_trace(pth, os.path.join(vlib.VERIF, "spec/trace/Trace_Mat.tla"), cfgt, heap="1g", tag=f"{tag}-srcneg",
+                                 env_extra={"TYPES": typesf, "OPEN": openf})
+        if not any(j["kind"] == "materialised-validator-threw" for j in vlib.tagged_lines(tn["lines"], "JUDGED")):
+            raise ToolError("binding self-test failed: a throwing validator was accepted by Trace_Mat (source stage)")
+    return violations, {"programs": len(progs), "outcomes": oc, "probes": len(probes)}, states, consumed
